@@ -131,8 +131,14 @@ func (u *Unit) oblige(st *State, name, kind string, props []string, goal Term, p
 	}
 	o := &Obligation{Name: u.name + "/" + name, Kind: kind, Props: props, PC: append([]Term(nil), st.pc...), Goal: goal, Pos: u.pos(pos), Info: info, Unit: u}
 	switch kind {
-	case "bounds", "div", "nil", "make", "sub", "conv", "overflow", "panic", "assertion":
+	case "bounds", "div", "nil", "make", "sub", "conv", "overflow", "panic", "assertion", "alloc":
 		o.New = true
+		if u.fc != nil && u.fc.HasSafety {
+			o.Props = u.fc.Safety
+			if len(o.Props) == 0 {
+				o.Props = []string{"-"}
+			}
+		}
 	}
 	u.obls = append(u.obls, o)
 }
